@@ -13,6 +13,9 @@ sites of that kind in the function at once, runs the owning properties' rules in
     kwreorder    keyword arguments of every call are reversed
     kw2pos       f(a, k=b) -> f(a, b) when k is the next positional parameter of a callee defined in the package (resolved by name, unique definition)
     pos2kw       f(a, b) -> f(a, k=b) for the last positional argument of such a callee
+    ifexp2if     return a if c else b -> if c: return a / return b ; x = a if c else b -> if c: x = a / else: x = b
+    elif2else    if a: A elif b: B else: C -> if a: A else: (if b: B else: C)   [same AST in Python: only the unparse differs; kept as a sanity kind]
+    unelse       if c: ...return... else: REST -> if c: ...return... ; REST   (else after a branch that always returns / raises / continues)
     hoistarg     x = f(g(y)) -> zz_arg = g(y); x = f(zz_arg)   (first call-valued positional argument of an assigned / returned call, simple statements only)
 
 A VIOLATION on such a variant is a false alarm of the rules (to be fixed); an ANALYSIS-ERROR is an idiom the rules do not recognise (brittleness).
@@ -36,7 +39,7 @@ from sa.report import open_known  # noqa: E402
 from sa.source import SourceSet, repo_root  # noqa: E402
 from tools.mutants import _find  # noqa: E402
 
-KINDS = ("rename", "flipcmp", "unaug", "tempret", "negif", "kwreorder", "kw2pos", "pos2kw", "hoistarg")
+KINDS = ("rename", "flipcmp", "unaug", "tempret", "negif", "kwreorder", "kw2pos", "pos2kw", "hoistarg", "ifexp2if", "elif2else", "unelse")
 
 
 def _own_nodes(fn):
@@ -148,6 +151,47 @@ def transform(fn: ast.FunctionDef, kind: str) -> int:
                 v = x.args.pop()
                 x.keywords.insert(0, ast.keyword(arg=pp[len(x.args)], value=v))
                 n += 1
+        return n
+    if kind == "ifexp2if":
+        for parent in [fn] + nodes:
+            for field in ("body", "orelse", "finalbody"):
+                body = getattr(parent, field, None)
+                if not isinstance(body, list):
+                    continue
+                i = 0
+                while i < len(body):
+                    st = body[i]
+                    if isinstance(st, ast.Return) and isinstance(st.value, ast.IfExp):
+                        e = st.value
+                        body[i: i + 1] = [ast.If(test=e.test, body=[ast.Return(value=e.body)], orelse=[], lineno=st.lineno), ast.Return(value=e.orelse)]
+                        n += 1
+                        i += 1
+                    elif isinstance(st, ast.Assign) and isinstance(st.value, ast.IfExp) and len(st.targets) == 1:
+                        e = st.value
+                        import copy as _c
+                        body[i] = ast.If(test=e.test, body=[ast.Assign(targets=[st.targets[0]], value=e.body, lineno=st.lineno)], orelse=[ast.Assign(targets=[_c.deepcopy(st.targets[0])], value=e.orelse, lineno=st.lineno)], lineno=st.lineno)
+                        n += 1
+                    i += 1
+        return n
+    if kind == "elif2else":
+        return sum(1 for x in nodes if isinstance(x, ast.If) and len(x.orelse) == 1 and isinstance(x.orelse[0], ast.If))
+    if kind == "unelse":
+        def always_leaves(b):
+            return bool(b) and isinstance(b[-1], (ast.Return, ast.Raise, ast.Continue, ast.Break))
+        for parent in [fn] + nodes:
+            for field in ("body", "orelse", "finalbody"):
+                body = getattr(parent, field, None)
+                if not isinstance(body, list):
+                    continue
+                i = 0
+                while i < len(body):
+                    st = body[i]
+                    if isinstance(st, ast.If) and st.orelse and always_leaves(st.body) and not (len(st.orelse) == 1 and isinstance(st.orelse[0], ast.If)):
+                        rest = st.orelse
+                        st.orelse = []
+                        body[i + 1: i + 1] = rest
+                        n += 1
+                    i += 1
         return n
     if kind == "hoistarg":
         for parent in [fn] + nodes:
